@@ -20,6 +20,12 @@ CLAIMED = {
              note="clap's parsing of -f and Features::from_str are not modelled (exercised by the CLI checks of C06/C07)."),
  "C19": dict(ref="6/C19", text="Theorem C19_pure: in the model the symbol table is the only state that survives an assembly; after the documented reset, assembling B equals assembling B from scratch whatever A was (C19_needs_reset shows the hypothesis is not vacuous). What a theorem about the model cannot show — that the real process has no OTHER leaking state — is carried by the correspondence: sequences of sources in one process (pairs with and without reset, triples, repetitions) through the public API vs the model, plus a direct comparison of the implementation's answer for B in a sequence with its answer for B alone.",
              note="Partial by nature: the theorem is about the model's explicit state; hidden state in the Rust process (thread-locals, manual StaticSource::reclaim) is covered only by the runs."),
+ "C06": dict(ref="6/C06", text="Theorems C06_bytes (compile writes origin-or-x3000 then the words, big-endian, 2(n+1) bytes), C06_roundtrip (loading the object file yields exactly the machine `run` builds from the source, hence the same run for every input and budget by C03_run), C06_loader_iff (accepted iff even length, at least one word, image+HALT fits below 2^16), C06_loader_rejects (everything else is an error exit, status 1 or xEE, never a panic). Tie: the real binary — `lace compile` bytes vs the model's bytes; `lace run x.lc3` vs `lace run x.asm` vs the model (exit status, program output, with stdin); the loader fed byte strings of every small length, odd lengths, boundary and random images.",
+             note="C06_roundtrip assumes 16-bit words in the image (true of every image the assembler model emits; checked on every generated program, not yet a theorem). File-system and process behaviour are the OS's."),
+ "C07": dict(ref="6/C07", text="Theorem C07_agree: in the model of main.rs the three subcommands share one assembling function that includes the emission of every statement, so `check` succeeds iff `compile` succeeds iff `run` gets past assembly, for every source and feature setting (trivial once the code is repaired — the substance is the tie). Tie: exit status of the real `lace check` / `lace compile` / `lace run` on the same file under each feature setting vs each other and vs the model's verdict, on sources whose only error surfaces at emission (every statement position x every PC-relative instruction), sources using the stack mnemonics, the C04 boundary corpus and mutated programs; thorough: one real `lace watch` process driven through file rewrites.",
+             note="clap and hotwatch are not modelled; `watch` is exercised for real only in the thorough tier."),
+ "C08": dict(ref="6/C08", text="Theorem C08_atomic over an abstract file system and a write oracle: exit 0 implies the destination holds the complete object file; a non-zero exit leaves every path as it was (for every oracle outcome except a truncated regular file, which is named and excluded); no other path is ever touched; C08_failure_untouched: an assembly failure at any statement never touches the file system. Tie: fault enumeration on the real binary — an out-of-range label reference injected at EVERY statement position 0..n (n up to 40), parse/lex/label errors, x destination absent / pre-existing / /dev/full / missing directory / a directory in place of the file; exit status and destination bytes before/after.",
+             note="Partial: real short writes to a regular file after `File::create` truncated it are represented only by the oracle outcome WWriteFailTruncated (outside the property's quantifier; see DESIGN.md)."),
 }
 PENDING_REASON = "not claimed yet: its model/theorem/correspondence check is not built at this commit (work in progress, see DESIGN.md section 11)"
 NOT_APPLICABLE = {}
